@@ -102,7 +102,7 @@ inline std::string& current_case() {
 }
 inline uint64_t key_hash(const std::string& key) {
   uint64_t h = sx::hash_str(current_case() + "\x01" + key);
-  return h ? h : 1;
+  return h < 8 ? h + 8 : h; // 0 = empty slot, 2 = withdrawn claim
 }
 inline bool key_seen(const std::string& key) {
   KeyTable* t = key_table();
@@ -139,9 +139,62 @@ inline bool key_claim(const std::string& key) {
   }
   return true;
 }
+inline void key_unclaim(const std::string& key) {
+  KeyTable* t = key_table();
+  if (!t)
+    return;
+  uint64_t h = key_hash(key);
+  for (uint64_t i = 0; i < 1024; ++i) {
+    std::atomic<uint64_t>& s = t->slot[(h + i) % 1024];
+    uint64_t v               = s.load();
+    if (v == h) {
+      s.store(2);
+      return;
+    }
+    if (v == 0)
+      return;
+  }
+}
+// Keys this run has claimed ahead of the report (so that the expensive
+// diagnostics are produced exactly once, by the run that will report).  The
+// run wrapper withdraws the claims that the run did not end up reporting.
+inline std::set<std::string>& claimed_here() {
+  static std::set<std::string> s;
+  return s;
+}
+inline bool claim_for_report(const std::string& key) {
+  if (claimed_here().count(key))
+    return true;
+  if (!key_claim(key))
+    return false;
+  claimed_here().insert(key);
+  return true;
+}
+// The run wrapper: f() is one run; lets a failure through iff its key is ours.
+template <class F>
+void run_reporting_once(const std::string& case_name, F f) {
+  current_case() = case_name;
+  claimed_here().clear();
+  try {
+    f();
+  } catch (const sx::Fail& x) {
+    bool mine = claimed_here().count(x.key) || key_claim(x.key);
+    for (auto& k : claimed_here())
+      if (k != x.key)
+        key_unclaim(k);
+    claimed_here().clear();
+    if (mine)
+      throw;
+    return;
+  }
+  for (auto& k : claimed_here())
+    key_unclaim(k);
+  claimed_here().clear();
+}
 
 // Failures that must not stop the rest of the run (known defects).  At the end
-// the first one whose key is still unclaimed is rethrown (else the first).
+// one is rethrown: preferably one whose key this run has claimed, else one
+// whose key nobody has claimed yet, else the first.
 struct Deferred {
   std::vector<sx::Fail> all;
   template <class F>
@@ -153,6 +206,9 @@ struct Deferred {
     }
   }
   void rethrow() {
+    for (auto& f : all)
+      if (claimed_here().count(f.key))
+        throw f;
     for (auto& f : all)
       if (!key_seen(f.key))
         throw f;
@@ -170,10 +226,11 @@ struct Deferred {
 // construct executes inline (nothing in it may use ThreadPool::run with more
 // than one thread, e.g. FileGraph::fromFileInterleaved).
 //
-// An AddressSanitizer report costs ~0.3 s (symbolizer), and a defect that
-// kills the process typically does so for thousands of inputs, so the child
-// normally dies quietly (default signal actions); only the first two deaths in
-// a worker are repeated with the sanitizer's handler to obtain the report.
+// An AddressSanitizer report costs 0.3 s to seconds (symbolizer), and a defect
+// that kills the process typically does so for thousands of inputs, so the
+// child normally dies quietly (default signal actions); the death is repeated
+// with the sanitizer's handler, to obtain its report, only by the one run that
+// reports the key (see elaborate()).
 // ---------------------------------------------------------------------------
 struct Death {
   bool died = false;
@@ -262,30 +319,17 @@ Death run_in_child(F f, bool quiet) {
   return D;
 }
 
-inline int& death_reports() {
-  static int n = 0;
-  return n;
-}
-// The first two (non-abort) deaths in a worker are repeated with the
-// sanitizer's signal handler in place to get its report.
+// Repeats a fatal call in a child with the sanitizer's signal handler in place
+// to obtain its report (file:line) -- only if this run is going to be the one
+// that reports `key` (see claim_for_report), i.e. once per case and key.
 template <class F>
-std::string elaborate(F f, const Death& d) {
-  if (d.how.find("signal 6") == std::string::npos && death_reports() < 2) {
-    ++death_reports();
-    Death d2 = run_in_child(f, false);
-    if (d2.died)
-      return d2.how;
-  }
-  return d.how;
-}
-
-// "" if f survives in a child, else how it died.
-template <class F>
-std::string dies_in_child(F f) {
-  Death d = run_in_child(f, true);
-  if (!d.died)
-    return "";
-  return elaborate(f, d);
+std::string elaborate(F f, const Death& d, const std::string& key) {
+  if (d.how.find("signal 6") != std::string::npos) // abort: text is there
+    return d.how;
+  if (!claim_for_report(key))
+    return d.how + " (sanitizer report omitted; the replay prints it)";
+  Death d2 = run_in_child(f, false);
+  return d2.died ? d2.how : d.how;
 }
 
 // Calls 0..k-1, any of which may kill the process.  invoke(i, check) performs
@@ -293,8 +337,8 @@ std::string dies_in_child(F f) {
 // order and publishes its progress, so one fork suffices when all survive and
 // each death costs one more; died(i, how) is told about every call that kills,
 // the others are then performed and checked in the worker itself.
-template <class Invoke, class Died>
-void guarded_calls(size_t k, Invoke invoke, Died died) {
+template <class Invoke, class KeyOf, class Died>
+void guarded_calls(size_t k, Invoke invoke, KeyOf key_of, Died died) {
   volatile uint64_t* prog = probe_progress();
   std::vector<char> dead(k, 0);
   size_t start = 0;
@@ -315,7 +359,7 @@ void guarded_calls(size_t k, Invoke invoke, Died died) {
     if (i >= k)
       break;
     dead[i] = 1;
-    died(i, elaborate([&]() { invoke(i, false); }, d));
+    died(i, elaborate([&]() { invoke(i, false); }, d, key_of(i)));
     start = i + 1;
   }
   for (size_t i = 0; i < k; ++i)
@@ -360,17 +404,18 @@ int faults_inline(F f) {
 }
 
 // Like guarded_calls, without forking (see above); a call that faults is
-// reported through died(i, how), where the first two faults in a worker are
-// repeated in a forked child for the sanitizer's report.
-template <class Invoke, class Died>
-void guarded_calls_inline(size_t k, Invoke invoke, Died died) {
+// reported through died(i, how); key_of(i) is the key died() will use (the
+// fault is repeated in a forked child for the sanitizer's report only by the
+// run that reports that key).
+template <class Invoke, class KeyOf, class Died>
+void guarded_calls_inline(size_t k, Invoke invoke, KeyOf key_of, Died died) {
   for (size_t i = 0; i < k; ++i) {
     int sig = faults_inline([&]() { invoke(i, true); });
     if (sig) {
       Death d;
       d.died = true;
       d.how  = "killed by signal " + std::to_string(sig);
-      died(i, elaborate([&]() { invoke(i, false); }, d));
+      died(i, elaborate([&]() { invoke(i, false); }, d, key_of(i)));
     }
   }
 }
